@@ -1,11 +1,13 @@
 mod air;
 mod asmseq;
+mod coll;
 mod dump;
 mod sym;
 mod exec;
 mod hints;
 mod masm;
 mod parse;
+mod pv;
 mod serde;
 mod trace;
 
@@ -34,6 +36,10 @@ fn run_family(family: &str, path: &str) {
             "serde" => serde::run_serde(&line),
             "asmseq" => asmseq::run_asmseq(&line),
             "mtree" => hints::run_mtree(&line),
+            "pv" => pv::run_pv(&line),
+            "pvweak" => pv::run_pvweak(&line),
+            "smt" => coll::run_smt(&line),
+            "mmr" => coll::run_mmr(&line),
             _ => panic!("unknown family {family}"),
         };
         // result lines carry a marker: the default host prints debug decorators to stdout
@@ -49,6 +55,7 @@ fn main() {
     match args[1].as_str() {
         "dump-const" => dump::dump_const(),
         "dump-air" => air::dump_air(),
+        "dump-opts" => dump::dump_opts(),
         "run" => run_family(&args[2], &args[3]),
         x => panic!("unknown command {x}"),
     }
